@@ -60,6 +60,8 @@ def trees(tier):
     # names that end in white space (file and directory)
     yield [("messages ", "file"), ("a.log", "file"), ("old logs /b.log", "file"), ("tab.log\t", "file")]
     yield [(" lead.log", "file"), ("trail.log ", "file")]
+    # a known non-log suffix under a compression suffix: still attempted when named explicitly
+    yield [("a.log", "file"), ("g.mp3.gz", "file")]
     # names starting with a dot
     yield [(".h.log", "file"), ("a.log", "file")]
     yield [("a.log", "file"), (".hd/a.log", "file"), ("sub/.h2.log", "file"), ("sub/b.log", "file")]
@@ -100,7 +102,12 @@ def run(tier, seed, build=True):
                 elif kind == "dangling":
                     os.symlink(e[2], p)
             files = sorted(set(files), key=sort_key)
-            explicit = ["D/" + f for f in files if f.rsplit(".", 1)[-1].lower() not in NONLOG]
+            def nonlog(f):
+                parts = f.lower().split(".")
+                while len(parts) > 1 and parts[-1] in ("gz", "bz2", "xz", "lz4"):
+                    parts.pop()           # the type is judged underneath compression suffixes
+                return parts[-1] in NONLOG
+            explicit = ["D/" + f for f in files if not nonlog(f)]
             has_mismatch_link = any(e[1] == "linkfile" and (e[0].endswith(".log") != e[2].endswith(".log")) for e in ents)
             cases.append((ti, root, ents, explicit, has_mismatch_link))
         common.log("[C15] %d directory trees" % len(cases))
@@ -149,7 +156,7 @@ def run(tier, seed, build=True):
                                   "`s4 %s` with stdin %r differs from the explicit invocation" % (" ".join(args), sin), {"engine": "E-CLI", "tree": tree_desc, "args": base + args, "stdin": sin})
             # explicitly named non-log name must be attempted
             for e in ents:
-                if e[0].endswith(".mp3") and e[1] == "file":
+                if (e[0].endswith(".mp3") or e[0].endswith(".mp3.gz")) and e[1] == "file":
                     r = common.run_s4(base + ["D/" + e[0]], cwd=root)
                     res.count()
                     if b"one " not in r.out:
